@@ -31,8 +31,8 @@ NCPU = min(16, os.cpu_count() or 4)
 # per-property budgets: (cases per worker quick, cases per worker thorough)
 BUDGET = {
     "C01": (1500, 60000), "C02": (900, 40000), "C03": (2500, 120000), "C04": (1500, 60000),
-    "C05": (1500, 60000), "C06": (500, 20000), "C07": (600, 25000), "C08": (600, 25000),
-    "C09": (1200, 50000), "C10": (1500, 60000), "C11": (1500, 60000), "C12": (150, 6000),
+    "C05": (1500, 60000), "C06": (250, 20000), "C07": (220, 25000), "C08": (600, 25000),
+    "C09": (1200, 50000), "C10": (1500, 60000), "C11": (1500, 60000), "C12": (70, 6000),
     "C13": (500, 20000), "C14": (1000, 40000), "C15": (1500, 60000), "C16": (1200, 50000),
     "C17": (600, 25000), "C18": (60, 2500), "C19": (1, 1), "C20": (500, 20000),
 }
